@@ -5,6 +5,8 @@ CONSTANTS
   Sizes = {0, 1, 3}
   FlavourSets = {{"SHA1"}, {"SHA256"}, {"SHA1", "SHA256"}}
   Mode = "code"
+  Runs = 1
+  RememberIndex = FALSE
   Emit = TRUE
 INVARIANTS TypeOK Converges NeverCorrupt NoTempLeft AlwaysOldOrNew FaultRaises IndexFaultConverges
            HashFaultWritesNothing GarbledNeverApplied ByPatchesWhenListed
